@@ -32,16 +32,16 @@ Clean(c) == c \in {"N_total", "N_merge", "v_L2com_mainprog", "N_mainprog", "npst
 HaloDeps(c) == IF c = "sigmavMid_com" THEN <<"sigmavMaj_com", "sigmavMin_com">>
                ELSE IF c = "sigmavMid_L2com" THEN <<"sigmavMaj_L2com", "sigmavMin_L2com">> ELSE <<>>
 
-Remove(sq, x) == SelectSeq(sq, LAMBDA y : y # x)
+Without(sq, x) == SelectSeq(sq, LAMBDA y : y # x)
 Has(sq, x) == \E i \in 1..Len(sq) : sq[i] = x
 AddIfAbsent(sq, x) == IF Has(sq, x) THEN sq ELSE Append(sq, x)
 \* keep the first occurrence of each element
 RECURSIVE Dedup(_)
-Dedup(sq) == IF sq = <<>> THEN <<>> ELSE <<Head(sq)>> \o Dedup(Remove(Tail(sq), Head(sq)))
+Dedup(sq) == IF sq = <<>> THEN <<>> ELSE <<Head(sq)>> \o Dedup(Without(Tail(sq), Head(sq)))
 
 (* ---- _setup_fields ---- *)
 SetupFields(req, cleaned, ABs) ==
-    LET f0 == IF cleaned THEN AddIfAbsent(Remove(req, "N"), "N_total") ELSE req
+    LET f0 == IF cleaned THEN AddIfAbsent(Without(req, "N"), "N_total") ELSE req
         cf0 == IF cleaned THEN SelectSeq(f0, Clean) ELSE <<>>
         f1 == IF cleaned THEN SelectSeq(f0, LAMBDA c : ~Clean(c)) ELSE f0
         addIdx(fc, ab) ==
